@@ -248,6 +248,7 @@ type job struct {
 func main() {
 	r = vcommon.Start("C24", "exploration")
 	covered := checkCoverage()
+	runSites() // call-site family (sites.go): first, on an idle machine
 
 	smallV, smallR := int64(1024), int64(32)
 	convV, convR, convK := int64(2048), int64(256), int64(48)
@@ -259,8 +260,13 @@ func main() {
 		"ticks->ns helpers v in [-%d,%d] x rate in [1,%d]; ns->ticks helpers every tick boundary ceil(k*10^9/rate)+{-1,0,1}, |k|<=%d, rate in [1,%d]; "+
 		"(B) boundary grid: %d rates (1..2^32) for every free rate dimension x ~150 boundary values of v per (m,d) "+
 		"(0, k*d+-2, 2^p+-1, MaxInt64/m+-2, MaxInt64*d/m+-2, q*d+(d-1), tick boundaries, Min/MaxInt64). "+
-		"distinct = (copy, sign of v, remainder zero?, magnitude byte-bucket of the result, naive v*m overflows?, (v mod d)*m overflows?)",
-		len(targets), smallV, smallV, smallR, convV, convV, convR, convK, convR, len(gridRates))
+		"distinct = (copy, sign of v, remainder zero?, magnitude byte-bucket of the result, naive v*m overflows?, (v mod d)*m overflows?). "+
+		"(C) call sites: each of the %d places that split ONE unit into separately stamped pieces (AC-3 / MPEG-1/2 audio frames, MPEG-4 audio access units, "+
+		"LATM elements, Opus packets, G.711/G.722/LPCM packets) is driven through its real entry point with every clock rate the format allows out of "+
+		"{8000,11025,16000,22050,32000,44100,48000,90000} x units of 1..6 pieces x 6 unit timestamps (0, 7, piece length-1, one second+1, 20 h, negative / next to the 32-bit wrap) "+
+		"[x piece-length pattern or channel count]; every piece timestamp is compared with trunc((pts + samples before piece i) * outRate / inRate) in math/big; "+
+		"distinct = (site, rate, pieces, timestamp class, variant, does a conversion hoisted out of the per-piece loop give another value?)",
+		len(targets), smallV, smallV, smallR, convV, convV, convR, convK, convR, len(gridRates), len(sites))
 
 	var jobs []job
 	for i := range targets {
@@ -390,7 +396,12 @@ func main() {
 		"multiplier and divisor are positive (clock rates / time scales 1..2^32, or the constant 10^9); rate 0 and negative rates are outside the property's domain",
 		"uint32 signatures (playback) cannot express 2^32: their grid stops at 2^32-1",
 		"internal/staticsources/rpicamera/camera_arm_.go only compiles on linux/arm: its copy is covered by requiring its source text to be identical to the executed copy in internal/stream",
-		"inline conversions that do not go through a helper (e.g. segment_fmp4.go mvhd duration) are not covered",
+		"inline conversions that do not go through a helper (e.g. segment_fmp4.go mvhd duration) are only covered where they stamp the pieces of one unit (call-site family)",
+		"call-site family: the per-format callback registered by the real entry point is invoked synchronously with hand-made units (export shim on stream.Reader); piece payloads are minimal valid frames, the clock rate comes from the format",
+		"call-site family: MPEG-TS outputs are read back with mediacommon's demuxer and compared modulo 2^33; the webrtc branches expose only the last packet of a unit (RTCP sender statistics) and the fMP4 recorder only the absolute time of the first and last piece, so piece i is judged as the last piece of the unit with i+1 pieces; dts of every piece is judged through the sample durations",
+		"call-site family: units of 1..6 pieces; an error that needs more pieces to reach one tick (rtmp MPEG-1 audio adds trunc(1152*90000/44100) per frame: first off at the 50th frame of one unit) is outside the alphabet",
+		"call-site family: where the statement leaves the clock of an offset open (MPEG-1/2 audio: 90 kHz ticks or samples) both exact values are accepted",
+		"sites that hand a whole multi-piece unit with ONE timestamp to a library (mpegts Opus/MPEG-4 audio PES, HLS muxer, RTP packetizers: property C23) and generators of whole units (offline sub-stream) are not split sites; the harness re-runs the grep for piece-length constants and exits HARNESS-ERROR for a file it does not drive",
 	}
 	r.Finish()
 }
